@@ -5,6 +5,7 @@ from __future__ import annotations
 from .. import terms as tm
 from ..model import AnalysisError
 from .common import count_form, ob, need, call_name, resolve_ite_free
+from . import common
 from .. import symeval
 
 PROP = "C13"
@@ -37,6 +38,23 @@ def rule_cropstrict(ctx, rule="C13.CROPSTRICT"):
     aw = [c for c in s.calls() if c.callee in ("np.argwhere", "np.nonzero", "np.flatnonzero", "np.where") and len(c.args) == 1 and c.args[0].op == "cmp"]  # index selections of a Boolean test
     lo = [c for c in aw if _has_operand(c.args[0], "t_min")]
     hi = [c for c in aw if _has_operand(c.args[0], "t_max")]
+    if not lo and not hi:
+        # binary-search form on the time-ordered columns: first end > t_min is searchsorted(ends, t_min, side="right"),
+        # first start >= t_max is searchsorted(starts, t_max, side="left")
+        ss = [c for c in s.calls() if c.callee in ("np.searchsorted", ".searchsorted") and len(c.args) >= 2]
+        slo = [c for c in ss if c.args[1].op == "param" and c.args[1].a[0] == "t_min"]
+        shi = [c for c in ss if c.args[1].op == "param" and c.args[1].a[0] == "t_max"]
+        if len(slo) == 1 and len(shi) == 1:
+            def side_of(c):
+                sd = dict(c.kw).get("side", c.args[2] if len(c.args) > 2 else tm.const("left"))
+                return sd.a[0] if sd.op == "const" else None
+
+            g1 = _col(slo[0].args[0], "intervals", 1) and side_of(slo[0]) == "right"
+            yield ob(rule, f, "util.adjust_intervals:keep-from", g1, "rows are kept from searchsorted(ends, t_min, side='right'): the first interval with end > t_min" if g1 else "rows are kept from searchsorted(%s, t_min, side=%r): not the first interval whose end is strictly after t_min" % (tm.show(slo[0].args[0], 2), side_of(slo[0])), node=slo[0].node)
+            g2 = _col(shi[0].args[0], "intervals", 0) and side_of(shi[0]) == "left"
+            yield ob(rule, f, "util.adjust_intervals:keep-until", g2, "rows are kept up to searchsorted(starts, t_max, side='left'): the first interval with start >= t_max" if g2 else "rows are kept up to searchsorted(%s, t_max, side=%r): an interval starting exactly at t_max is kept and clipped to zero duration" % (tm.show(shi[0].args[0], 2), side_of(shi[0])), node=shi[0].node)
+            if not (g1 and g2):
+                return
     need(len(lo) == 1 and len(hi) == 1, rule, "adjust_intervals: crop selections (np.argwhere over t_min / t_max) not found")
     c = lo[0].args[0]
     # rows from the first one whose END is strictly after t_min are kept: t_min < intervals[:, 1]
@@ -345,6 +363,7 @@ def _strip_len(t):
 
 
 RULES = [
+    ("C13.SAMPLETWIN", 8, common.shared("c16", "rule_sampletwin", "C13.SAMPLETWIN")),
     ("C13.LOOPCOMPLETE", 2, rule_loopcomplete),
     ("C13.PADSPAN", 4, rule_padspan),
     ("C13.LABELLIST", 7, rule_labellist),
